@@ -43,6 +43,9 @@ func tableOf(srv any) *nbtns.NetBIOSNameServer {
 	return nil
 }
 
+// transaction ids of the N-client scenarios: both ends of the range (0 is an id like any other)
+var nbIDs = []uint16{0x0000, 0xFFFF, 0x1111, 0x2222}
+
 func mkQuery(id uint16, opcode int, name string) []byte { return mkQueryPad(id, opcode, name, -1) }
 
 // mkQueryPad adds an additional record with pad bytes of RDATA (ignored by the servers) so that
@@ -422,14 +425,14 @@ func nbnsScenarios(c *vf.Ctx, B int) []*scenario {
 					for i := 0; i < nc; i++ {
 						i := i
 						hs = append(hs, vrt.GoNamed("client"+names[i], func() {
-							res[i] = udpExchange(srvUDP, mkQuery(uint16(0x1111*(i+1)), 0, names[i]))
+							res[i] = udpExchange(srvUDP, mkQuery(nbIDs[i], 0, names[i]))
 						}))
 					}
 					for _, h := range hs {
 						vrt.Join(h)
 					}
 					for i := 0; i < nc; i++ {
-						checkQueryResp(x, "client"+names[i], uint16(0x1111*(i+1)), names[i], ips[i], res[i], true)
+						checkQueryResp(x, "client"+names[i], nbIDs[i], names[i], ips[i], res[i], true)
 					}
 					stopAndDrain(x, s)
 				}})
@@ -673,14 +676,14 @@ func nbnsScenarios(c *vf.Ctx, B int) []*scenario {
 						panic("harness: dial: " + err.Error())
 					}
 					conns = append(conns, conn)
-					rq := mkQuery(uint16(0x1111*(i+1)), 0, []string{"NX", "NY"}[i])
+					rq := mkQuery(nbIDs[i], 0, []string{"NX", "NY"}[i])
 					conn.Write(append(binary.BigEndian.AppendUint16(nil, uint16(len(rq))), rq...))
 					conn.SetReadDeadline(vtime.Now().Add(time.Second))
 					var l [2]byte
 					if _, err := io.ReadFull(conn, l[:]); err == nil {
 						body := make([]byte, binary.BigEndian.Uint16(l[:]))
 						if _, err := io.ReadFull(conn, body); err == nil {
-							checkQueryResp(x, fmt.Sprintf("idle-conn%d", i), uint16(0x1111*(i+1)), []string{"NX", "NY"}[i], []net.IP{ipX, ipY}[i], []resp{parseResp(body)}, true)
+							checkQueryResp(x, fmt.Sprintf("idle-conn%d", i), nbIDs[i], []string{"NX", "NY"}[i], []net.IP{ipX, ipY}[i], []resp{parseResp(body)}, true)
 						}
 					} else {
 						x.fail("exactly-one-response-per-request", "no response on connection %d: %v", i, err)
